@@ -1,86 +1,1190 @@
+// C21: glob() returns exactly the files its documented semantics select.
+// Implementation side of the correspondence (real fs.Globber on trees materialised on disk, fs.Match,
+// toRegexString through the verif hook) + a model-independent property oracle (segment-wise reference).
 package main
 
 import (
 	"fmt"
 	"os"
 	"path/filepath"
+	"sort"
+	"strings"
+
+	"verifharness/lib"
 
 	"github.com/thought-machine/please/src/fs"
 )
 
-func mk(root string, files map[string]string) {
-	for p, c := range files {
-		full := filepath.Join(root, p)
-		os.MkdirAll(filepath.Dir(full), 0o755)
-		if c == "DIR" {
-			os.MkdirAll(full, 0o755)
-		} else if len(c) > 3 && c[:3] == "-> " {
-			os.Symlink(c[3:], full)
-		} else {
-			os.WriteFile(full, []byte(c), 0o644)
+// ------------------------------------------------------------------------------------------ patterns
+
+type atom struct {
+	K     string    `json:"k"` // "l" literal, "?" , "*" , "[" class
+	C     byte      `json:"c,omitempty"`
+	Neg   bool      `json:"neg,omitempty"`
+	Items [][2]byte `json:"items,omitempty"`
+}
+
+type pseg struct {
+	DStar bool   `json:"dstar,omitempty"`
+	Atoms []atom `json:"atoms,omitempty"`
+}
+
+type pat []pseg
+
+func lit(x string) []atom {
+	out := []atom{}
+	for i := 0; i < len(x); i++ {
+		out = append(out, litAtom(x[i]))
+	}
+	return out
+}
+
+// a literal byte; bytes that are special to filepath.Match are written as a one-character class
+func litAtom(c byte) atom {
+	if c == '[' || c == '*' || c == '?' {
+		return atom{K: "[", Items: [][2]byte{{c, c}}}
+	}
+	return atom{K: "l", C: c}
+}
+
+func renderSeg(g pseg) string {
+	if g.DStar {
+		return "**"
+	}
+	var b strings.Builder
+	for _, a := range g.Atoms {
+		switch a.K {
+		case "l":
+			b.WriteByte(a.C)
+		case "?":
+			b.WriteByte('?')
+		case "*":
+			b.WriteByte('*')
+		case "[":
+			b.WriteByte('[')
+			if a.Neg {
+				b.WriteByte('^')
+			}
+			for _, it := range a.Items {
+				if it[0] == it[1] {
+					b.WriteByte(it[0])
+				} else {
+					b.WriteByte(it[0])
+					b.WriteByte('-')
+					b.WriteByte(it[1])
+				}
+			}
+			b.WriteByte(']')
+		}
+	}
+	return b.String()
+}
+
+func render(p pat) string {
+	segs := make([]string, len(p))
+	for i, g := range p {
+		segs[i] = renderSeg(g)
+	}
+	return strings.Join(segs, "/")
+}
+
+func renderAll(ps []pat) []string {
+	out := make([]string, len(ps))
+	for i, p := range ps {
+		out[i] = render(p)
+	}
+	return out
+}
+
+func coqAtom(a atom) string {
+	switch a.K {
+	case "l":
+		return lib.App("ALit", lib.N(uint64(a.C)))
+	case "?":
+		return "AQ"
+	case "*":
+		return "AStar"
+	}
+	items := []string{}
+	for _, it := range a.Items {
+		items = append(items, lib.Pair(lib.N(uint64(it[0])), lib.N(uint64(it[1]))))
+	}
+	return lib.App("AClass", lib.Bool(a.Neg), lib.List(items))
+}
+
+func coqPat(p pat) string {
+	segs := []string{}
+	for _, g := range p {
+		if g.DStar {
+			segs = append(segs, "DStar")
+			continue
+		}
+		as := []string{}
+		for _, a := range g.Atoms {
+			as = append(as, coqAtom(a))
+		}
+		segs = append(segs, lib.App("Seg", lib.List(as)))
+	}
+	return lib.List(segs)
+}
+
+func coqPats(ps []pat) string {
+	out := []string{}
+	for _, p := range ps {
+		out = append(out, coqPat(p))
+	}
+	return lib.List(out)
+}
+
+// ------------------------------------------------------------------------------------------ trees
+
+const (
+	kFile = iota
+	kSymFile
+	kSymDir
+	kDir
+)
+
+type node struct {
+	Kind   int
+	Target string
+	Kids   []entry // sorted by name (bytes), as ReadDir returns them
+}
+
+type entry struct {
+	Name string
+	N    *node
+}
+
+func (n *node) sortKids() {
+	sort.Slice(n.Kids, func(i, j int) bool { return n.Kids[i].Name < n.Kids[j].Name })
+	for _, k := range n.Kids {
+		if k.N.Kind == kDir {
+			k.N.sortKids()
 		}
 	}
 }
 
-func try(fsys string, root string, inc, exc []string, hidden bool) {
+func (n *node) json() any {
+	switch n.Kind {
+	case kFile:
+		return "f"
+	case kSymFile, kSymDir:
+		return "l:" + n.Target
+	}
+	m := map[string]any{}
+	for _, k := range n.Kids {
+		m[k.Name] = k.N.json()
+	}
+	return m
+}
+
+func nodeFromJSON(v any) *node {
+	switch x := v.(type) {
+	case string:
+		if strings.HasPrefix(x, "l:") {
+			return &node{Kind: kSymFile, Target: x[2:]}
+		}
+		return &node{Kind: kFile}
+	case map[string]any:
+		n := &node{Kind: kDir}
+		for name, k := range x {
+			n.Kids = append(n.Kids, entry{name, nodeFromJSON(k)})
+		}
+		return n
+	}
+	panic("bad tree json")
+}
+
+// symlink kinds are decided by what the target resolves to inside the same directory
+func (n *node) fixSymKinds() {
+	for _, k := range n.Kids {
+		if k.N.Kind == kSymFile || k.N.Kind == kSymDir {
+			k.N.Kind = kSymFile
+			for _, o := range n.Kids {
+				if o.Name == k.N.Target && o.N.Kind == kDir {
+					k.N.Kind = kSymDir
+				}
+			}
+		}
+		if k.N.Kind == kDir {
+			k.N.fixSymKinds()
+		}
+	}
+}
+
+func (n *node) coq() string {
+	switch n.Kind {
+	case kFile:
+		return "File"
+	case kSymFile, kSymDir:
+		return "Sym"
+	}
+	ks := []string{}
+	for _, k := range n.Kids {
+		ks = append(ks, lib.Pair(lib.Str(k.Name), k.N.coq()))
+	}
+	return lib.App("Dir", lib.List(ks))
+}
+
+func (n *node) materialise(dir string) {
+	if err := os.MkdirAll(dir, 0o755); err != nil {
+		panic(err)
+	}
+	for _, k := range n.Kids {
+		p := filepath.Join(dir, k.Name)
+		switch k.N.Kind {
+		case kFile:
+			if err := os.WriteFile(p, nil, 0o644); err != nil {
+				panic(err)
+			}
+		case kSymFile, kSymDir:
+			if err := os.Symlink(k.N.Target, p); err != nil {
+				panic(err)
+			}
+		case kDir:
+			k.N.materialise(p)
+		}
+	}
+}
+
+func (n *node) count() (files, dirs int) {
+	for _, k := range n.Kids {
+		if k.N.Kind == kDir {
+			f, d := k.N.count()
+			files, dirs = files+f, dirs+d+1
+		} else {
+			files++
+		}
+	}
+	return
+}
+
+// every entry below the package root, with its path segments
+type ent struct {
+	Segs []string
+	N    *node
+}
+
+func (n *node) all(prefix []string, out *[]ent) {
+	for _, k := range n.Kids {
+		segs := append(append([]string{}, prefix...), k.Name)
+		*out = append(*out, ent{segs, k.N})
+		if k.N.Kind == kDir {
+			k.N.all(segs, out)
+		}
+	}
+}
+
+var buildFileNames = []string{"BUILD", "BUILD.plz"}
+
+func isBuildName(x string) bool { return x == "BUILD" || x == "BUILD.plz" }
+
+func nameHidden(x string) bool {
+	return strings.HasPrefix(x, ".") || (strings.HasPrefix(x, "#") && strings.HasSuffix(x, "#"))
+}
+
+// ------------------------------------------------------------------------------------------ the reference
+// Independent of the model and of the implementation: segment-wise matching, by dynamic programming.
+
+func atomMatches(a atom, c byte) bool {
+	switch a.K {
+	case "l":
+		return a.C == c
+	case "?":
+		return true
+	case "[":
+		in := false
+		for _, it := range a.Items {
+			if it[0] <= c && c <= it[1] {
+				in = true
+			}
+		}
+		return in != a.Neg
+	}
+	return false
+}
+
+// refSeg: does the pattern segment match the whole name?  (table over positions; `*` = any run)
+func refSeg(as []atom, name string) bool {
+	cur := make([]bool, len(name)+1)
+	cur[0] = true
+	for _, a := range as {
+		next := make([]bool, len(name)+1)
+		if a.K == "*" {
+			seen := false
+			for i := 0; i <= len(name); i++ {
+				seen = seen || cur[i]
+				next[i] = seen
+			}
+		} else {
+			for i := 0; i < len(name); i++ {
+				if cur[i] && atomMatches(a, name[i]) {
+					next[i+1] = true
+				}
+			}
+		}
+		cur = next
+	}
+	return cur[len(name)]
+}
+
+// refPath: `**` = any number of whole segments (at least one when it ends the pattern)
+func refPath(p pat, segs []string) bool {
+	cur := make([]bool, len(segs)+1)
+	cur[0] = true
+	for gi, g := range p {
+		next := make([]bool, len(segs)+1)
+		if g.DStar {
+			seen := false
+			last := gi == len(p)-1
+			for i := 0; i <= len(segs); i++ {
+				if last {
+					next[i] = seen // strictly more segments than some reachable position
+					seen = seen || cur[i]
+				} else {
+					seen = seen || cur[i]
+					next[i] = seen
+				}
+			}
+		} else {
+			for i := 0; i < len(segs); i++ {
+				if cur[i] && refSeg(g.Atoms, segs[i]) {
+					next[i+1] = true
+				}
+			}
+		}
+		cur = next
+	}
+	return cur[len(segs)]
+}
+
+func segsHavePrefix(segs, prefix []string) bool {
+	if len(prefix) > len(segs) {
+		return false
+	}
+	for i := range prefix {
+		if segs[i] != prefix[i] {
+			return false
+		}
+	}
+	return true
+}
+
+// an exclude entry: no '/' -> against the file name; otherwise against the path from the package; an entry that
+// literally names a directory (or the file itself) excludes everything beneath it
+func refExcluded(e pat, segs []string) bool {
+	litSegs := make([]string, len(e))
+	for i, g := range e {
+		litSegs[i] = renderSeg(g)
+	}
+	if segsHavePrefix(segs, litSegs) {
+		return true
+	}
+	if len(e) == 1 && !e[0].DStar {
+		return refSeg(e[0].Atoms, segs[len(segs)-1])
+	}
+	return refPath(e, segs)
+}
+
+type query struct {
+	Pkg    string
+	Inc    []pat
+	Exc    []pat
+	Hidden bool
+	Syms   bool
+}
+
+// the source files of the package: regular files (symlinks to files with Syms), not in a sub-package, not in the
+// repository's plz-out, no hidden component unless Hidden
+func refCandidate(q query, tree *node, e ent) bool {
+	if !(e.N.Kind == kFile || (q.Syms && (e.N.Kind == kSymFile))) {
+		return false
+	}
+	cur := tree
+	for i, sname := range e.Segs {
+		if !q.Hidden && nameHidden(sname) {
+			return false
+		}
+		if q.Pkg == "" && i == 0 && sname == "plz-out" {
+			return false
+		}
+		if i < len(e.Segs)-1 {
+			for _, k := range cur.Kids {
+				if k.Name == sname {
+					cur = k.N
+				}
+			}
+			for _, k := range cur.Kids {
+				if isBuildName(k.Name) {
+					return false
+				}
+			}
+		}
+	}
+	return true
+}
+
+func refSelected(q query, tree *node, e ent) bool {
+	if !refCandidate(q, tree, e) {
+		return false
+	}
+	inc := false
+	for _, p := range q.Inc {
+		inc = inc || refPath(p, e.Segs)
+	}
+	if !inc {
+		return false
+	}
+	for _, x := range q.Exc {
+		if refExcluded(x, e.Segs) {
+			return false
+		}
+	}
+	return true
+}
+
+// ------------------------------------------------------------------------------------------ classification
+// A discrepancy between the implementation and the reference is labelled by the smallest set of KNOWN deviations
+// of src/fs/glob.go that explains it (emulated on the joined path string, as the code works); anything that no set
+// explains is an unexplained mismatch.  The emulation is used for labelling only, never to decide pass/fail.
+
+const (
+	qDirs       = 1 << iota // directories (and symlinks to them) are candidates like files
+	qHiddenBase             // only the base name is tested for hiddenness
+	qRootDStar              // in the root package a leading `**/` needs at least one directory
+	qQmSep                  // in a pattern containing `**`, `?` also matches '/'
+	qNegSep                 // a negated class also matches '/'
+	qPlzOut                 // in the root package anything NAMED plz-out is skipped, at any depth
+	qAll        = 1<<iota - 1
+)
+
+var quirkClass = []struct {
+	bit   int
+	class string
+}{
+	{qDirs, "directory-returned"},
+	{qHiddenBase, "file-in-hidden-directory-returned"},
+	{qRootDStar, "leading-doublestar-needs-a-directory-in-root-package"},
+	{qQmSep, "question-mark-matches-separator-in-doublestar-pattern"},
+	{qNegSep, "negated-class-matches-separator"},
+	{qPlzOut, "entry-named-plz-out-skipped-at-any-depth-in-root-package"},
+}
+
+type stok struct {
+	kind string // "1" single, "*" star of non-sep, "opt" optional leading dirs, "any" everything
+	a    atom
+	sep  bool // kind "1": a '/' literal
+}
+
+func emuTokens(p pat, pkg string, quirks int) []stok {
+	ts := []stok{}
+	for i, g := range p {
+		last := i == len(p)-1
+		if g.DStar {
+			switch {
+			case last:
+				ts = append(ts, stok{kind: "any"})
+			case i == 0 && pkg == "" && quirks&qRootDStar != 0:
+				ts = append(ts, stok{kind: "any"}, stok{kind: "1", sep: true})
+			default:
+				ts = append(ts, stok{kind: "opt"})
+			}
+			continue
+		}
+		for _, a := range g.Atoms {
+			if a.K == "*" {
+				ts = append(ts, stok{kind: "*"})
+			} else {
+				ts = append(ts, stok{kind: "1", a: a})
+			}
+		}
+		if !last {
+			ts = append(ts, stok{kind: "1", sep: true})
+		}
+	}
+	return ts
+}
+
+func emuMatch(ts []stok, x string, regexMode bool, quirks int) bool {
+	if len(ts) == 0 {
+		return x == ""
+	}
+	t := ts[0]
+	switch t.kind {
+	case "any":
+		for i := 0; i <= len(x); i++ {
+			if emuMatch(ts[1:], x[i:], regexMode, quirks) {
+				return true
+			}
+		}
+		return false
+	case "opt":
+		if emuMatch(ts[1:], x, regexMode, quirks) {
+			return true
+		}
+		for i := 0; i < len(x); i++ {
+			if x[i] == '/' && emuMatch(ts[1:], x[i+1:], regexMode, quirks) {
+				return true
+			}
+		}
+		return false
+	case "*":
+		for i := 0; i <= len(x); i++ {
+			if emuMatch(ts[1:], x[i:], regexMode, quirks) {
+				return true
+			}
+			if i < len(x) && x[i] == '/' {
+				break
+			}
+		}
+		return false
+	}
+	if x == "" {
+		return false
+	}
+	c := x[0]
+	ok := false
+	switch {
+	case t.sep:
+		ok = c == '/'
+	case c == '/':
+		ok = (t.a.K == "?" && regexMode && quirks&qQmSep != 0) || (t.a.K == "[" && t.a.Neg && quirks&qNegSep != 0 && atomMatches(t.a, c))
+	default:
+		ok = atomMatches(t.a, c)
+	}
+	return ok && emuMatch(ts[1:], x[1:], regexMode, quirks)
+}
+
+func emuPattern(p pat, pkg string, path string, quirks int) bool {
+	return emuMatch(emuTokens(p, pkg, quirks), path, strings.Contains(render(p), "**"), quirks)
+}
+
+func emuSelected(q query, tree *node, e ent, quirks int) bool {
+	// candidates
+	isFile := e.N.Kind == kFile || (q.Syms && e.N.Kind == kSymFile)
+	isDirLike := e.N.Kind == kDir || (q.Syms && e.N.Kind == kSymDir)
+	if !isFile && !(isDirLike && quirks&qDirs != 0) {
+		return false
+	}
+	cur := tree
+	for i, sname := range e.Segs {
+		lastSeg := i == len(e.Segs)-1
+		if !q.Hidden && nameHidden(sname) && (quirks&qHiddenBase == 0 || lastSeg) {
+			return false
+		}
+		if q.Pkg == "" && sname == "plz-out" && (i == 0 || quirks&qPlzOut != 0) {
+			return false
+		}
+		if quirks&qPlzOut != 0 && q.Pkg == "" {
+			// a non-directory named plz-out ends the walk of its directory: later siblings are never seen
+			for _, k := range cur.Kids {
+				if k.Name == "plz-out" && k.N.Kind != kDir && k.Name < sname {
+					return false
+				}
+			}
+		}
+		var next *node
+		for _, k := range cur.Kids {
+			if k.Name == sname {
+				next = k.N
+			}
+		}
+		if next != nil && next.Kind == kDir {
+			for _, k := range next.Kids {
+				if isBuildName(k.Name) {
+					return false // the directory is a package of its own (itself included)
+				}
+			}
+		}
+		if !lastSeg {
+			cur = next
+		}
+	}
+	path := strings.Join(e.Segs, "/")
+	inc := false
+	for _, p := range q.Inc {
+		inc = inc || emuPattern(p, q.Pkg, path, quirks)
+	}
+	if !inc {
+		return false
+	}
+	for _, x := range q.Exc {
+		lit := render(x)
+		if path == lit || strings.HasPrefix(path, lit+"/") {
+			return false
+		}
+		if len(x) == 1 {
+			if emuPattern(x, "x", e.Segs[len(e.Segs)-1], quirks) {
+				return false
+			}
+		} else if emuPattern(x, q.Pkg, path, quirks) {
+			return false
+		}
+	}
+	return true
+}
+
+func popcount(x int) int {
+	n := 0
+	for ; x != 0; x &= x - 1 {
+		n++
+	}
+	return n
+}
+
+const regexMeta = "(){}|^$\\"
+
+// unescaped regular-expression metacharacters in a pattern that goes through toRegexString
+func hasRegexMeta(p pat) bool {
+	if !strings.Contains(render(p), "**") {
+		return false
+	}
+	for _, g := range p {
+		for _, a := range g.Atoms {
+			if a.K == "l" && strings.IndexByte(regexMeta+"]", a.C) >= 0 {
+				return true
+			}
+			if a.K == "[" {
+				for _, it := range a.Items {
+					if strings.IndexByte("[]\\^", it[0]) >= 0 || strings.IndexByte("[]\\^", it[1]) >= 0 {
+						return true
+					}
+				}
+			}
+		}
+	}
+	return false
+}
+
+func classify(q query, tree *node, e ent, got bool) string {
+	best, bestN := -1, 99
+	for qs := 1; qs <= qAll; qs++ {
+		if n := popcount(qs); n < bestN && emuSelected(q, tree, e, qs) == got {
+			best, bestN = qs, n
+		}
+	}
+	if best >= 0 {
+		for _, qc := range quirkClass {
+			if best&qc.bit != 0 {
+				return qc.class
+			}
+		}
+	}
+	for _, p := range append(append([]pat{}, q.Inc...), q.Exc...) {
+		if hasRegexMeta(p) {
+			return "regex-metacharacter-unescaped-in-doublestar-pattern"
+		}
+	}
+	return "unexplained-mismatch"
+}
+
+// ------------------------------------------------------------------------------------------ running the real code
+
+type result struct {
+	Out   []string
+	Panic string
+}
+
+func runGlob(repo string, q query) (res result) {
+	cwd, _ := os.Getwd()
+	if err := os.Chdir(repo); err != nil {
+		panic(err)
+	}
+	defer os.Chdir(cwd)
 	defer func() {
 		if r := recover(); r != nil {
-			fmt.Printf("root=%q inc=%q exc=%q hidden=%v -> PANIC %v\n", root, inc, exc, hidden, r)
+			res = result{Panic: fmt.Sprint(r)}
 		}
 	}()
-	out := fs.Glob(os.DirFS(fsys), []string{"BUILD"}, root, inc, exc, hidden)
-	fmt.Printf("root=%q inc=%q exc=%q hidden=%v -> %q\n", root, inc, exc, hidden, out)
+	out := fs.NewGlobber(fs.HostFS, buildFileNames).Glob(q.Pkg, renderAll(q.Inc), renderAll(q.Exc), q.Hidden, q.Syms)
+	if out == nil {
+		out = []string{}
+	}
+	return result{Out: out}
 }
 
-func main() {
-	d := os.Args[1]
-	mk(d, map[string]string{
-		"x.txt": "", "BUILD": "", ".h.txt": "", "#e.txt#": "", ".hid/x.txt": "", ".hid/sub/y.txt": "",
-		"d1/a.txt": "", "d1/b(1).txt": "", "d1/d2/c.txt": "", "d1/a+b.txt": "", "d1/a/b": "",
-		"sub/BUILD": "", "sub/s.txt": "", "sub/aaa.txt": "", "sub/zzz/q.txt": "", "sub/aa/r.txt": "",
-		"plz-out/gen/g.txt": "", "d1/plz-out/p.txt": "", "lnk.txt": "-> x.txt", "dlnk": "-> d1",
-		"pkg/BUILD": "", "pkg/p.txt": "", "pkg/plz-out/o.txt": "", "pkg/e/f.txt": "", "pkg/inner/BUILD": "", "pkg/inner/i.txt": "",
-		"pkg/axb": "", "pkg/a/b": "", "empty": "DIR", "d1/x{1}.txt": "", "d1/$x.txt": "", "d1/x|y.txt":"", "d1/^x.txt":"", "d1/[x].txt":"",
-	})
-	for _, root := range []string{"", "pkg"} {
-		try(d, root, []string{"*"}, nil, false)
-		try(d, root, []string{"**"}, nil, false)
-		try(d, root, []string{"**"}, nil, true)
-		try(d, root, []string{"**/*.txt"}, nil, false)
-		try(d, root, []string{"*.txt"}, nil, false)
-		try(d, root, []string{"**/a?b"}, nil, false)
-		try(d, root, []string{"*/*.txt"}, []string{"a*"}, false)
-		try(d, root, []string{"**/*.txt"}, []string{"d1"}, false)
-		try(d, root, []string{"**/*.txt"}, []string{"d1/d2/**"}, false)
-		try(d, root, []string{"**/*.txt"}, []string{"**/c.txt"}, false)
+// does the Coq model cover this pattern (Model/C21.v parse_regex)?  Patterns without `**` always are.
+func modellable(p pat) bool {
+	r := render(p)
+	if !strings.Contains(r, "**") {
+		return !strings.Contains(r, "\\")
 	}
-	try(d, "", []string{"**/b(1).txt"}, nil, false)
-	try(d, "", []string{"d1/b(1).txt"}, nil, false)
-	try(d, "", []string{"d1/**/b(1).txt"}, nil, false)
-	try(d, "", []string{"d1/**/a+b.txt"}, nil, false)
-	try(d, "", []string{"d1/**/x{1}.txt"}, nil, false)
-	try(d, "", []string{"d1/**/$x.txt"}, nil, false)
-	try(d, "", []string{"d1/**/x|y.txt"}, nil, false)
-	try(d, "", []string{"d1/**/^x.txt"}, nil, false)
-	try(d, "", []string{"d1/**/[[]x].txt"}, nil, false)
-	try(d, "", []string{"d1/[[]x].txt"}, nil, false)
-	try(d, "", []string{"d1/**"}, nil, false)
-	try(d, "", []string{"d1/**/*"}, nil, false)
-	try(d, "", []string{"**/d2/**"}, nil, false)
-	try(d, "", []string{"./d1/*.txt"}, nil, false)
-	try(d, "", []string{"d1/../x.txt"}, nil, false)
-	try(d, "", []string{"d1/"}, nil, false)
-	try(d, "", []string{"[a-"}, nil, false)
-	try(d, "", []string{"**/[a-"}, nil, false)
-	try(d, "", []string{".hid/*.txt"}, nil, false)
-	try(d, "", []string{".*"}, nil, false)
-	try(d, "", []string{"**/.*"}, nil, true)
-	try(d, "", []string{"*.txt", "x.*"}, nil, false)
-	try(d, "", []string{"dlnk/*"}, nil, false)
-	try(d, "", []string{"d1/***"}, nil, false)
-	try(d, "", []string{"d1**"}, nil, false)
-	try(d, "", []string{"**.txt"}, nil, false)
-	try(d, "", []string{"**/[^a]*.txt"}, nil, false)
-	try(d, "", []string{"d1/[!a]*.txt"}, nil, false)
-	try(d, "", []string{"d1/[^a]*.txt"}, nil, false)
+	depth := 0
+	for _, g := range p {
+		for _, a := range g.Atoms {
+			switch a.K {
+			case "l":
+				switch {
+				case a.C == '(':
+					depth++
+				case a.C == ')':
+					depth--
+					if depth < 0 {
+						return false
+					}
+				case strings.IndexByte("{}|^$\\]", a.C) >= 0:
+					return false
+				}
+			case "[":
+				for _, it := range a.Items {
+					if strings.IndexByte("[]\\^-", it[0]) >= 0 || strings.IndexByte("[]\\^-", it[1]) >= 0 || it[0] > it[1] {
+						return false
+					}
+				}
+			}
+		}
+	}
+	return depth == 0
+}
+
+// ------------------------------------------------------------------------------------------ generators
+
+var plainNames = []string{"a", "b", "ab", "a.txt", "b.txt", "ab.txt", "c.go", "c_test.go", "x", "x.txt", "main.go", "d1", "d2", "src", "lib", "a.b.c", "aXb", "a-b", "z"}
+var hiddenNames = []string{".h", ".hid", ".x.txt", "#a#", "#", ".a"}
+var halfHidden = []string{"#b", "b#", "a.#"}
+var metaNames = []string{"b(1).txt", "a+b.txt", "x{1}.go", "a|b", "^c", "d$", "[e].txt", "a b", "(a)", "a++", "x.y+z", "$a.go", "a^b.txt", "{a}", "a]b", "p|q.txt"}
+
+func genName(r *lib.Rng) string {
+	switch x := r.Intn(20); {
+	case x < 11:
+		return lib.Pick(r, plainNames)
+	case x < 14:
+		return lib.Pick(r, hiddenNames)
+	case x < 15:
+		return lib.Pick(r, halfHidden)
+	default:
+		return lib.Pick(r, metaNames)
+	}
+}
+
+func genDir(r *lib.Rng, depth int, top bool, pkgIsRepoRoot bool) *node {
+	n := &node{Kind: kDir}
+	used := map[string]bool{}
+	add := func(name string, k *node) {
+		if !used[name] {
+			used[name] = true
+			n.Kids = append(n.Kids, entry{name, k})
+		}
+	}
+	cnt := r.Range(1, 5)
+	if top {
+		cnt = r.Range(2, 6)
+	}
+	for i := 0; i < cnt; i++ {
+		name := genName(r)
+		if depth < 3 && r.Chance(2, 5) {
+			add(name, genDir(r, depth+1, false, pkgIsRepoRoot))
+		} else {
+			add(name, &node{Kind: kFile})
+		}
+	}
+	// a sub-package
+	if !top && r.Chance(1, 5) {
+		add(lib.Pick(r, buildFileNames), &node{Kind: kFile})
+	}
+	if top && r.Chance(1, 2) {
+		add("BUILD", &node{Kind: kFile})
+	}
+	// plz-out: the output tree at the top of the repository; rarely something else of that name
+	if top && r.Chance(1, 3) {
+		add("plz-out", genDir(r, depth+1, false, pkgIsRepoRoot))
+	} else if r.Chance(1, 25) {
+		if r.Chance(3, 4) {
+			add("plz-out", genDir(r, 3, false, pkgIsRepoRoot))
+		} else {
+			add("plz-out", &node{Kind: kFile})
+		}
+	}
+	// symlinks to a sibling
+	if len(n.Kids) > 0 && r.Chance(1, 6) {
+		target := lib.Pick(r, n.Kids)
+		k := kSymFile
+		if target.N.Kind == kDir {
+			k = kSymDir
+		}
+		if target.N.Kind != kSymFile && target.N.Kind != kSymDir {
+			add(lib.Pick(r, []string{"lnk", "lnk.txt", ".lnk", "l(1)"}), &node{Kind: k, Target: target.Name})
+		}
+	}
+	return n
+}
+
+func classFor(r *lib.Rng, c byte) atom {
+	switch r.Intn(4) {
+	case 0:
+		return atom{K: "[", Items: [][2]byte{{c, c}, {'q', 'q'}}}
+	case 1:
+		lo, hi := c, c
+		if c > 'a' && c < 'z' || c > '1' && c < '9' || c > 'A' && c < 'Z' {
+			lo, hi = c-1, c+1
+		}
+		return atom{K: "[", Items: [][2]byte{{lo, hi}}}
+	case 2:
+		return atom{K: "[", Neg: true, Items: [][2]byte{{'q', 'q'}}}
+	default:
+		return atom{K: "[", Items: [][2]byte{{'a', 'z'}, {'0', '9'}}}
+	}
+}
+
+// a segment pattern derived from a name: literal, `*`, prefix*/*suffix, `?`/class substitutions
+func genSeg(r *lib.Rng, name string) pseg {
+	switch x := r.Intn(12); {
+	case x < 3:
+		return pseg{Atoms: lit(name)}
+	case x < 5:
+		return pseg{Atoms: []atom{{K: "*"}}}
+	case x < 7: // *suffix
+		if i := strings.LastIndexByte(name, '.'); i > 0 {
+			return pseg{Atoms: append([]atom{{K: "*"}}, lit(name[i:])...)}
+		}
+		return pseg{Atoms: append([]atom{{K: "*"}}, lit(name[len(name)-1:])...)}
+	case x < 8: // prefix*
+		k := r.Range(1, len(name))
+		return pseg{Atoms: append(lit(name[:k]), atom{K: "*"})}
+	case x < 9: // pre*suf
+		k := r.Range(0, len(name)-1)
+		as := append(lit(name[:k]), atom{K: "*"})
+		return pseg{Atoms: append(as, lit(name[min(len(name), k+r.Range(0, 2)):])...)}
+	default:
+		as := lit(name)
+		for j := range as {
+			if r.Chance(1, 3) {
+				if r.Bool() {
+					as[j] = atom{K: "?"}
+				} else if as[j].K == "l" && strings.IndexByte("-]\\^", as[j].C) < 0 {
+					as[j] = classFor(r, as[j].C)
+				}
+			}
+		}
+		if r.Chance(1, 4) {
+			as = append(as, atom{K: "*"})
+		}
+		return pseg{Atoms: as}
+	}
+}
+
+func genPattern(r *lib.Rng, ents []ent) pat {
+	var segs []string
+	if len(ents) > 0 && r.Chance(9, 10) {
+		segs = lib.Pick(r, ents).Segs
+	} else {
+		for i, n := 0, r.Range(1, 3); i < n; i++ {
+			segs = append(segs, genName(r))
+		}
+	}
+	p := pat{}
+	for _, sname := range segs {
+		p = append(p, genSeg(r, sname))
+	}
+	// `**`: replace a run of leading/inner segments, or add one
+	switch x := r.Intn(10); {
+	case x < 3 && len(p) >= 1: // **/last...
+		k := r.Range(0, len(p)-1)
+		p = append(pat{{DStar: true}}, p[k:]...)
+	case x < 4 && len(p) >= 2: // first/**/last
+		p = pat{p[0], {DStar: true}, p[len(p)-1]}
+	case x < 5: // prefix/**
+		k := r.Range(0, len(p)-1)
+		p = append(append(pat{}, p[:k]...), pseg{DStar: true})
+	case x < 6 && len(p) >= 2: // insert in the middle
+		k := r.Range(1, len(p)-1)
+		p = append(append(append(pat{}, p[:k]...), pseg{DStar: true}), p[k:]...)
+	}
+	return p
+}
+
+func genExclude(r *lib.Rng, ents []ent) pat {
+	if len(ents) > 0 {
+		e := lib.Pick(r, ents)
+		switch x := r.Intn(10); {
+		case x < 4: // relative: one segment, against the file name
+			return pat{genSeg(r, e.Segs[len(e.Segs)-1])}
+		case x < 6: // a literal directory / file path
+			k := r.Range(1, len(e.Segs))
+			p := pat{}
+			for _, sname := range e.Segs[:k] {
+				p = append(p, pseg{Atoms: lit(sname)})
+			}
+			return p
+		}
+	}
+	return genPattern(r, ents)
+}
+
+func pkgDir(repo, pkg string) string {
+	if pkg == "" {
+		return repo
+	}
+	return filepath.Join(repo, pkg)
+}
+
+// ------------------------------------------------------------------------------------------ one query
+
+func jsQuery(q query, tree *node, res result) map[string]any {
+	return map[string]any{"pkg": q.Pkg, "tree": tree.json(), "include": renderAll(q.Inc), "exclude": renderAll(q.Exc),
+		"inc": q.Inc, "exc": q.Exc, "hidden": q.Hidden, "include_symlinks": q.Syms, "returned": res.Out, "panic": res.Panic}
+}
+
+func runQuery(c *lib.Ctx, repo string, tree *node, ents []ent, q query, toModel bool) {
+	res := runGlob(repo, q)
+	js := jsQuery(q, tree, res)
+	key := fmt.Sprint(tree.json(), q.Pkg, renderAll(q.Inc), renderAll(q.Exc), q.Hidden, q.Syms)
+	hasDStar := false
+	for _, p := range append(append([]pat{}, q.Inc...), q.Exc...) {
+		hasDStar = hasDStar || strings.Contains(render(p), "**")
+	}
+	nontrivial := len(res.Out) > 0 && len(ents) >= 3
+	c.Hist("doublestar", lib.Bool(hasDStar))
+	c.Hist("excludes", fmt.Sprint(len(q.Exc)))
+	c.Hist("returned", bucket(len(res.Out)))
+	if q.Pkg == "" {
+		c.Hist("package", "root")
+	} else {
+		c.Hist("package", "nested")
+	}
+
+	// ---- oracle: compare with the reference on every entry of the tree (and on what was returned)
+	c.Oracle()
+	anyMeta := false
+	for _, p := range append(append([]pat{}, q.Inc...), q.Exc...) {
+		anyMeta = anyMeta || hasRegexMeta(p)
+	}
+	if res.Panic != "" {
+		cls := "glob-panicked"
+		if anyMeta && strings.Contains(res.Panic, "error parsing regexp") {
+			cls = "regex-metacharacter-unescaped-in-doublestar-pattern"
+		}
+		c.Fail(cls, "glob panicked on a well-formed pattern: "+res.Panic, js)
+		c.Eval(js, key, false)
+		return
+	}
+	got := map[string]int{}
+	for _, f := range res.Out {
+		got[f]++
+	}
+	known := map[string]bool{}
+	for _, e := range ents {
+		path := strings.Join(e.Segs, "/")
+		known[path] = true
+		want := refSelected(q, tree, e)
+		have := got[path] > 0
+		if want != have {
+			cls := classify(q, tree, e, have)
+			what := fmt.Sprintf("glob(%q, exclude=%q, hidden=%v) in package %q returned %q, which the documented semantics do not select", renderAll(q.Inc), renderAll(q.Exc), q.Hidden, q.Pkg, path)
+			if want {
+				what = fmt.Sprintf("glob(%q, exclude=%q, hidden=%v) in package %q did not return %q, which the documented semantics select", renderAll(q.Inc), renderAll(q.Exc), q.Hidden, q.Pkg, path)
+			}
+			c.Fail(cls, what, js)
+		}
+	}
+	for f := range got {
+		if !known[f] {
+			if f == "." && q.Pkg == "" {
+				c.Fail("directory-returned", fmt.Sprintf("glob(%q, hidden=%v) in the root package returned \".\", the package directory itself", renderAll(q.Inc), q.Hidden), js)
+			} else if anyMeta {
+				c.Fail("regex-metacharacter-unescaped-in-doublestar-pattern", fmt.Sprintf("glob(%q) in package %q returned %q, which is not an entry of the package", renderAll(q.Inc), q.Pkg, f), js)
+			} else {
+				c.Fail("returned-path-not-in-package", fmt.Sprintf("glob returned %q, which is not an entry of the package", f), js)
+			}
+		}
+	}
+
+	// ---- model side
+	ok := toModel
+	for _, p := range append(append([]pat{}, q.Inc...), q.Exc...) {
+		ok = ok && modellable(p)
+	}
+	if ok {
+		c.Case(lib.App("CGlobS", lib.StrList(buildFileNames), lib.Str(q.Pkg), tree.coq(), coqPats(q.Inc), coqPats(q.Exc),
+			lib.Bool(q.Hidden), lib.Bool(q.Syms), lib.StrList(res.Out)), js, key, nontrivial)
+	} else {
+		c.Eval(js, key, nontrivial)
+	}
+}
+
+func bucket(n int) string {
+	switch {
+	case n == 0:
+		return "0"
+	case n <= 2:
+		return "1-2"
+	case n <= 5:
+		return "3-5"
+	}
+	return "6+"
+}
+
+func withTree(c *lib.Ctx, pkg string, tree *node, f func(repo string, ents []ent)) {
+	tree.sortKids()
+	repo, err := os.MkdirTemp(c.Out, "tree")
+	if err != nil {
+		panic(err)
+	}
+	defer os.RemoveAll(repo)
+	tree.materialise(pkgDir(repo, pkg))
+	var ents []ent
+	tree.all(nil, &ents)
+	f(repo, ents)
+}
+
+func dir(kids ...entry) *node { return &node{Kind: kDir, Kids: kids} }
+func file(name string) entry { return entry{name, &node{Kind: kFile}} }
+func sub(name string, kids ...entry) entry {
+	return entry{name, dir(kids...)}
+}
+func star() atom { return atom{K: "*"} }
+func segOf(as ...[]atom) pseg {
+	out := []atom{}
+	for _, a := range as {
+		out = append(out, a...)
+	}
+	return pseg{Atoms: out}
+}
+
+var dstar = pseg{DStar: true}
+
+func main() {
+	lib.Main("C21", func(c *lib.Ctx) {
+		c.Model("From PlzV Require Import Model.C21.", "C21.case", "C21.check")
+		c.Rule("directory trees generated on disk (depth <= 4; plain, hidden, half-hidden and regex-metacharacter names; sub-packages = directories holding BUILD/BUILD.plz; plz-out; symlinks) " +
+			"as the root package or a nested package, x queries (1-3 include and 0-2 exclude patterns derived from paths of the tree by generalising segments to *, prefix*, *suffix, ?, [class], and runs of segments to **; hidden and include_symlinks flags) " +
+			"through the real fs.Globber.Glob on fs.HostFS; every entry of the tree is compared with an independent segment-wise reference matcher; " +
+			"queries whose patterns the model covers are also compared with the Coq model (exact returned list); plus fs.Match on pattern x path pairs and toRegexString on generated strings. " +
+			"distinct = distinct (tree, query); non-trivial = tree with >= 3 entries and a non-empty result")
+
+		var rq struct {
+			Pkg     string         `json:"pkg"`
+			Tree    map[string]any `json:"tree"`
+			Inc     []pat          `json:"inc"`
+			Exc     []pat          `json:"exc"`
+			Hidden  bool           `json:"hidden"`
+			Symlink bool           `json:"include_symlinks"`
+		}
+		if c.ReadReplay(&rq) && rq.Tree != nil {
+			tree := nodeFromJSON(rq.Tree)
+			tree.fixSymKinds()
+			withTree(c, rq.Pkg, tree, func(repo string, ents []ent) {
+				runQuery(c, repo, tree, ents, query{rq.Pkg, rq.Inc, rq.Exc, rq.Hidden, rq.Symlink}, true)
+			})
+			return
+		}
+
+		// ---- 1. the witnesses of the known findings, on a fixed tree (DESIGN.md section 6), and their neighbours
+		fixed := dir(sub(".hid", file("x.txt")), file("BUILD"), sub("d1", file("a.txt"), file("b(1).txt"), file("b1.txt"), sub("d2", file("c.txt"))),
+			sub("sub", file("BUILD"), file("s.txt")), file("x.txt"))
+		txt := lit(".txt")
+		for _, pkg := range []string{"", "pkg"} {
+			withTree(c, pkg, fixed, func(repo string, ents []ent) {
+				for _, q := range []query{
+					{pkg, []pat{{dstar, segOf([]atom{star()}, txt)}}, nil, false, false},
+					{pkg, []pat{{dstar, segOf(lit("b(1).txt"))}}, nil, false, false},
+					{pkg, []pat{{segOf([]atom{star()})}}, nil, false, false},
+					{pkg, []pat{{segOf([]atom{star()})}}, nil, true, false},
+					{pkg, []pat{{dstar}}, nil, true, false},
+					{pkg, []pat{{segOf([]atom{star()}), segOf([]atom{star()}, txt)}}, []pat{{segOf(lit("a"), []atom{star()})}}, false, false},
+					{pkg, []pat{{segOf(lit("d1")), dstar}}, []pat{{segOf(lit("d1")), segOf(lit("d2"))}}, false, false},
+					{pkg, []pat{{segOf(lit("d1")), dstar, segOf(lit("c.txt"))}}, nil, false, false},
+					{pkg, []pat{{dstar, segOf(lit("d"), []atom{{K: "?"}}, lit("c.txt"))}}, nil, false, false},
+					{pkg, []pat{{segOf(lit("d1"), []atom{{K: "[", Neg: true, Items: [][2]byte{{'q', 'q'}}}}, lit("a.txt"))}}, nil, false, false},
+				} {
+					runQuery(c, repo, fixed, ents, q, true)
+				}
+			})
+		}
+
+		// ---- 2. generated trees x generated queries
+		ntrees := c.Scale(60, 1500)
+		perTree := c.Scale(8, 12)
+		modelPerTree := c.Scale(3, 4)
+		for i := 0; i < ntrees; i++ {
+			r := c.Rng.Fork()
+			pkg := ""
+			if r.Chance(1, 2) {
+				pkg = lib.Pick(r, []string{"pkg", "a/pkg", "third_party/go", "p+q"})
+			}
+			tree := genDir(r, 0, true, pkg == "")
+			files, dirs := tree.count()
+			c.Hist("tree_files", bucket(files))
+			c.Hist("tree_dirs", bucket(dirs))
+			withTree(c, pkg, tree, func(repo string, ents []ent) {
+				for j := 0; j < perTree; j++ {
+					q := query{Pkg: pkg, Hidden: r.Chance(1, 4), Syms: r.Chance(1, 2)}
+					for k, n := 0, r.Range(1, 3); k < n; k++ {
+						q.Inc = append(q.Inc, genPattern(r, ents))
+					}
+					for k, n := 0, r.Intn(3); k < n; k++ {
+						q.Exc = append(q.Exc, genExclude(r, ents))
+					}
+					if r.Chance(1, 3) { // as the builtin does: the BUILD file names are always excluded
+						q.Exc = append(q.Exc, pat{{Atoms: lit("BUILD")}}, pat{{Atoms: lit("BUILD.plz")}})
+					}
+					runQuery(c, repo, tree, ents, q, j < modelPerTree)
+				}
+				// ---- 3. fs.Match on pattern x path pairs of this tree (no filtering, no disk)
+				for j, n := 0, c.Scale(4, 8); j < n && len(ents) > 0; j++ {
+					p := genPattern(r, ents)
+					e := lib.Pick(r, ents)
+					path := strings.Join(e.Segs, "/")
+					c.Oracle()
+					m, err := fs.Match(render(p), path)
+					if err != nil && hasRegexMeta(p) {
+						c.Fail("regex-metacharacter-unescaped-in-doublestar-pattern", fmt.Sprintf("fs.Match(%q, %q) failed on a well-formed pattern: %v", render(p), path, err), map[string]any{"pattern": render(p), "path": path})
+						continue
+					}
+					if err != nil {
+						c.Fail("match-error", fmt.Sprintf("fs.Match(%q, %q) failed on a well-formed pattern: %v", render(p), path, err), map[string]any{"pattern": render(p), "path": path})
+						continue
+					}
+					js := map[string]any{"pattern": render(p), "path": path, "match": m}
+					if want := refPath(p, e.Segs); want != m {
+						q := query{Pkg: "", Inc: []pat{p}, Hidden: true, Syms: true}
+						cls := classifyMatch(q, p, e, m)
+						c.Fail(cls, fmt.Sprintf("fs.Match(%q, %q) = %v, the documented semantics say %v", render(p), path, m, want), js)
+					}
+					if modellable(p) {
+						c.Case(lib.App("CMatch", lib.Str(render(p)), lib.Str(path), lib.Bool(m)), js, "m"+render(p)+"\x00"+path, m)
+					}
+				}
+			})
+		}
+
+		// ---- 4. toRegexString on rendered patterns and on adversarial strings
+		alphabet := []byte("+.?*/[^]ab(")
+		for i, n := 0, c.Scale(150, 2000); i < n; i++ {
+			r := c.Rng.Fork()
+			b := make([]byte, r.Range(0, 14))
+			for j := range b {
+				b[j] = lib.Pick(r, alphabet)
+			}
+			in := string(b)
+			out := fs.VerifToRegexString(in)
+			c.Case(lib.App("CRegex", lib.Str(in), lib.Str(out)), map[string]any{"pattern": in, "regex": out}, "r"+in, strings.Contains(in, "*"))
+		}
+	})
+}
+
+// a discrepancy of the bare matcher (fs.Match = patternToMatcher(".", p)): the same deviation classes
+func classifyMatch(q query, p pat, e ent, got bool) string {
+	path := strings.Join(e.Segs, "/")
+	best, bestN := -1, 99
+	for qs := 1; qs <= qAll; qs++ {
+		if qs&(qDirs|qHiddenBase|qPlzOut) != 0 {
+			continue
+		}
+		if n := popcount(qs); n < bestN && emuPattern(p, "", path, qs) == got {
+			best, bestN = qs, n
+		}
+	}
+	if best >= 0 {
+		for _, qc := range quirkClass {
+			if best&qc.bit != 0 {
+				return qc.class
+			}
+		}
+	}
+	if hasRegexMeta(p) {
+		return "regex-metacharacter-unescaped-in-doublestar-pattern"
+	}
+	return "unexplained-mismatch"
 }
